@@ -14,6 +14,9 @@ OUT = os.path.join(HERE, "out")
 EVIDENCE = os.path.join(HERE, "evidence")
 REPLAYS = os.path.join(OUT, "replays")
 REPO = os.environ.get("VERIF_REPO", "/repo")
+if os.path.realpath(REPO) != "/repo":
+    # runs against a scratch copy (mutants, seeded changes) must never overwrite the committed evidence
+    EVIDENCE = os.path.join(OUT, "evidence_scratch")
 
 
 def seed():
